@@ -10,6 +10,11 @@
  *     - nobody (NULL, or an entry without an address) if it does not occur.
  *
  * usage: fwq <shard> <nshards> <depth> <phase_depth> <seed> <nrandom>
+ *        fwq long <nputs> <seed>
+ *   long: one history of <nputs> forwarded queries (the table has no notion of time: a server that has been up for months has
+ *         made this many calls), lookups of recent / older-than-16 / never-used ids after every put inside windows around each
+ *         power of two of the put count (2^8, 2^15, 2^16, 2^31, 2^32 are where 8/16/32-bit counters wrap) and every 2^16 puts
+ *         elsewhere
  *   part 1: every history of length <= depth over {put(id in 0..2, asker in A..B)} u {get(id in 0..3)}      (exhaustive)
  *   part 2: for every ring phase k = 0..47 (k puts with fresh ids first), every history of length <= phase_depth (exhaustive)
  *   part 3: nrandom random histories of length 60..400 with ids from a domain of 3..20 values
@@ -149,10 +154,54 @@ static void enumerate(int depth, int maxdepth, int prefix_puts, int sharded)
 	}
 }
 
+/* the last 16 (asker, id) pairs of the long history, kept without the 4096-entry reference array */
+static void long_history(unsigned long long nputs)
+{
+	unsigned long long n, next_sparse = 0, wlo = 0, whi = 0, pw = 256, checked = 0, windows = 0;
+	int i;
+	fw_query_init();
+	nref = 0;
+	for (n = 0; n < nputs; n++) {
+		/* ids walk through the whole 16-bit space with an odd stride: 16 consecutive ones are distinct */
+		unsigned short id = (unsigned short)(n * 40503u + 7u);
+		int asker = (int)(n % 29);
+		static struct fw_query tmpl[29];
+		if (n < 29) mk(&tmpl[asker], asker, 0);
+		tmpl[asker].id = id;
+		fw_query_put(&tmpl[asker]);
+		n_puts++;
+		if (nref >= 4000) { memmove(ref, ref + nref - 15, 15 * sizeof(ref[0])); nref = 15; }
+		ref[nref].asker = asker; ref[nref].id = id; nref++;
+		if (n + 1 + 40 >= pw && wlo != pw) { wlo = pw; whi = pw + 40; windows++; }
+		if (n + 1 > whi && wlo == pw && pw < (1ULL << 62)) pw <<= 1;
+		if ((wlo && n + 1 + 40 >= wlo && n + 1 <= whi) || n >= next_sparse) {
+			if (n >= next_sparse) next_sparse = n + 65536;
+			snprintf(hist, sizeof(hist), "[long history: after %llu forwarded queries with ids n*40503+7, askers n%%29]", n + 1);
+			for (i = 0; i < 16 && i < nref; i++)
+				check_get(ref[nref - 1 - i].id);		/* each of the 16 most recent */
+			check_get((unsigned short)((n - 16) * 40503u + 7u));	/* the 17th most recent: forgotten (n >= 16) */
+			check_get((unsigned short)((n + 1) * 40503u + 7u));	/* not asked yet */
+			checked++;
+		}
+	}
+	DRV_X("long_history_puts", nputs);
+	DRV_X("long_history_points_checked", checked);
+	DRV_X("long_history_windows_around_powers_of_two", windows);
+	DRV_N("long-history-2^%d", nputs >= (1ULL << 31) ? 31 : nputs >= (1ULL << 24) ? 24 : 16);
+}
+
 int main(int argc, char **argv)
 {
 	int depth, pdepth, k, i;
 	unsigned long long nrandom, h;
+	if (argc >= 4 && strcmp(argv[1], "long") == 0) {
+		drv_seed(strtoull(argv[3], NULL, 10));
+		long_history(strtoull(argv[2], NULL, 10));
+		DRV_E(n_gets);
+		DRV_X("gets_id_once_in_window", n_single);
+		DRV_X("gets_id_not_in_window", n_none);
+		return 0;
+	}
 	if (argc < 7) { fprintf(stderr, "usage\n"); return 2; }
 	shard = atoi(argv[1]); nshards = atoi(argv[2]); depth = atoi(argv[3]); pdepth = atoi(argv[4]);
 	drv_seed(strtoull(argv[5], NULL, 10) * 977 + shard);
